@@ -738,9 +738,10 @@ func runC08(c *fw.Ctx) {
 
 func init() {
 	fw.Register(&fw.Prop{
-		ID:    "C08",
-		Level: "exploration",
-		Race:  true,
+		ID:           "C08",
+		EvalCounters: []string{"schedules", "free_runs"},
+		Level:        "exploration",
+		Race:         true,
 		Rule: "Mode A (controlled schedules through the verif yield hook, one yield before every shared-map access of StateCache.Get/commit): 12 small scenarios (ancestors A<-B committed; C, child of B, writing k1,k2 and removing k3, being committed by one participant, in one scenario followed by its child E; two scenarios commit a parent AFTER its already committed child; two scenarios run a second committer for a sibling block writing a brand-new key (the scheduler sets a participant aside while it is blocked on a real lock); " +
 			"2-3 reader participants issuing 1-2 lookups at A, B, C, E and through the block/transaction cache of an open child D). Schedules: breadth-first enumeration of all schedules with at most 3 (quick) / 4 (thorough) preemptions up to a cap, uniform random schedules, PCT-style priority schedules. " +
 			"Oracle: every hit equals the value the block tree determines; lookups at contexts committed before the run, of own uncommitted entries, and lookups started after Commit returned must hit; a quiescent sweep re-reads every (key, block). " +
